@@ -5,12 +5,12 @@ sys.path.insert(0, os.path.dirname(os.path.abspath(__file__)))
 from common import *
 from wesym.contracts import crypto, orbit
 
-ROOT_PKGS = [MOD, MOD + '/pkg/secretstore', MOD + '/pkg/cryptoutil', MOD + '/pkg/protocoltypes', MOD + '/pkg/errcode', 'encoding/binary', 'slices']
+ROOT_PKGS = [MOD, MOD + '/pkg/secretstore', MOD + '/pkg/cryptoutil', MOD + '/pkg/protocoltypes', MOD + '/pkg/errcode', MOD + '/pkg/ipfsutil', 'encoding/binary', 'slices']
 EVENT_TYPES = [1, 2, 101, 102, 103, 104, 105, 106, 107, 108, 109, 110, 111, 112, 201, 301, 302, 303, 403, 500, 1001]
 
 
-def root_check(pid, files, extra_installers=()):
-    return Check(pid, ROOT_PKGS, '', ['root/zz_verif_env.go'] + files,
+def root_check(pid, files, extra_installers=(), extra_pkgs=()):
+    return Check(pid, ROOT_PKGS + list(extra_pkgs), '', ['root/zz_verif_env.go'] + files,
                  installers=[crypto.install, crypto.install_proto, orbit.install] + list(extra_installers),
                  init_pkgs=[MOD + '/pkg/errcode', MOD], prelude_pkgname='weshnet')
 
